@@ -156,3 +156,72 @@ func TestC18_Visibility(t *testing.T) {
 		},
 		Check: c18Check})
 }
+
+// TestC18_ImportShapes: every import graph over four files, every order of the last file's imports.
+func TestC18_ImportShapes(t *testing.T) {
+	ev.RunEnum(t, ev.Spec[c18Case]{ID: "C18", Name: "ImportShapes",
+		Rule:  "ALL import graphs over 4 files f0..f3 (each edge fi -> fj, j < i, absent, plain or public: 729 graphs) with the imports of f3 in EVERY order; each file declares a package, a message, an enum and (f1..f3) an extension of f0's message when it can see it; same oracle as Visibility for the resolver of every file and every element, extension and path; non-trivial as in Visibility",
+		Check: c18Check}, true, func(yield func(c18Case) bool) {
+		var perms func(xs []int) [][]int
+		perms = func(xs []int) [][]int {
+			if len(xs) <= 1 {
+				return [][]int{append([]int{}, xs...)}
+			}
+			var out [][]int
+			for i := range xs {
+				rest := append(append([]int{}, xs[:i]...), xs[i+1:]...)
+				for _, p := range perms(rest) {
+					out = append(out, append([]int{xs[i]}, p...))
+				}
+			}
+			return out
+		}
+		for g := 0; g < 729; g++ {
+			var edge [4][4]int
+			x := g
+			for _, e := range [][2]int{{1, 0}, {2, 0}, {2, 1}, {3, 0}, {3, 1}, {3, 2}} {
+				edge[e[0]][e[1]] = x % 3
+				x /= 3
+			}
+			imps := func(i int) []int {
+				var out []int
+				for j := 0; j < i; j++ {
+					if edge[i][j] != 0 {
+						out = append(out, j)
+					}
+				}
+				return out
+			}
+			for _, o3 := range perms(imps(3)) {
+				ws := &gen.Workspace{}
+				for i := 0; i < 4; i++ {
+					pkg := fmt.Sprintf("p%d", i)
+					f := &gen.File{Name: fmt.Sprintf("f%d.proto", i), Syntax: gen.Proto2, Package: pkg}
+					order := imps(i)
+					if i == 3 {
+						order = o3
+					}
+					for _, j := range order {
+						f.Imports = append(f.Imports, gen.Import{Path: fmt.Sprintf("f%d.proto", j), Public: edge[i][j] == 2})
+					}
+					m := &gen.Message{Name: "T", FQN: pkg + ".T", OneofOpts: map[int][]gen.Opt{}}
+					if i == 0 {
+						m.ExtRanges = []gen.Range{{Lo: 100, Hi: 200}}
+					}
+					f.Messages = []*gen.Message{m}
+					f.Enums = []*gen.Enum{{Name: "E", FQN: pkg + ".E", Values: []gen.EnumValue{{Name: fmt.Sprintf("E%d_ZERO", i), Number: 0}}, Closed: true}}
+					ws.Files = append(ws.Files, f)
+				}
+				// an extension of f0's message wherever f0 is visible
+				for i := 1; i < 4; i++ {
+					if ws.Visible(ws.Files[i])["f0.proto"] {
+						ws.Files[i].Extends = []*gen.Extend{{Extendee: "p0.T", Scope: ws.Files[i].Package, Fields: []*gen.Field{{Name: fmt.Sprintf("x%d", i), Number: 100 + i, Label: "optional", Type: "int32", Oneof: -1}}}}
+					}
+				}
+				if !yield(c18FromWS(ws)) {
+					return
+				}
+			}
+		}
+	})
+}
